@@ -336,7 +336,7 @@ func (w *walker) walk(n ast.Node) {
 		w.fn = append(w.fn, recvName(x))
 		pushedFn = true
 		if x.Body != nil {
-			w.f.insert(x.Body.Lbrace+1, " zsimrt.Step();")
+			w.f.insert(x.Body.Lbrace+1, " zsimrt.Step(); defer zsimrt.Leave();")
 		}
 		if x.Name.Name == "init" && x.Recv == nil {
 			w.inInit = true
